@@ -71,6 +71,10 @@ pub fn gen_case(rng: &mut Rng, for_c09: bool) -> Option<Case> {
         scalars.push(("ID".into(), rng.s(&["string", "number||string"]).to_string()));
     }
     // some scalars get their TypeScript types from the schema directive instead of the configuration
+    // a third of the schemas are written with extensions (fields, interfaces, members, values moved into `extend` items)
+    if rng.chance(1, 3) {
+        schema = crate::gen_schema::split_extensions(&schema, rng);
+    }
     crate::gen_schema::scalars_via_directive(&mut schema, &mut scalars, SCALAR_TS, rng);
     Some(Case { schema: render_ts(&schema, None, Feat::plain()), op: render_exec(&doc, None, Feat::plain()), scalars, allow_undefined: rng.chance(2, 3) })
 }
